@@ -269,9 +269,10 @@ func specOutstanding(a *Association, tsn uint32) bool {
 
 //@ func Association.checkPartialReliabilityStatus
 //@   at call time.Since assert#lifetime-measured-from-the-first-transmission{C06} arg0 == chunkPayload.firstSent
-//@   at call chunkPayloadData.setAbandoned@1 assert#retransmission-limit-reached{C06} chunkPayload.payloadType != PayloadTypeWebRTCDCEP && arg1 &&
-//@      stream.reliabilityType == ReliabilityTypeRexmit && chunkPayload.nSent >= stream.reliabilityValue
-//@   at call chunkPayloadData.setAbandoned@2 assert#lifetime-expired{C06} chunkPayload.payloadType != PayloadTypeWebRTCDCEP && arg1 &&
+//@   at call chunkPayloadData.setAbandoned assert#retransmission-limit-reached{C06} chunkPayload.payloadType != PayloadTypeWebRTCDCEP && arg1 &&
+//@      (stream.reliabilityType == ReliabilityTypeRexmit || stream.reliabilityType == ReliabilityTypeTimed) &&
+//@      (stream.reliabilityType == ReliabilityTypeRexmit ==> chunkPayload.nSent >= stream.reliabilityValue)
+//@   at call chunkPayloadData.setAbandoned@2 assert#lifetime-expired{C06}
 //@      stream.reliabilityType == ReliabilityTypeTimed && elapsed >= int64(stream.reliabilityValue)
 //@   ensures#dcep-never-abandoned{C06} chunkPayload.payloadType == PayloadTypeWebRTCDCEP ==> chunkPayload.abandoned() == old(chunkPayload.abandoned())
 
@@ -351,9 +352,9 @@ func specChunkWireSize(c *chunkPayloadData) int {
 
 //@ func Association.onCumulativeTSNAckPointAdvanced
 //@   assume#windows-below-two-to-the-31 a.CWND() < 1<<31 && a.MTU() <= 65535 && a.cwndCAStep <= 1<<30 && totalBytesAcked >= 0
-//@   at call Association.setCWND@1 assert#slow-start-grows-by-at-most-the-acked-bytes{C10} a.CWND() <= a.ssthresh && !a.inFastRecovery &&
+//@   at call Association.setCWND assert#slow-start-grows-by-at-most-the-acked-bytes{C10} a.CWND() <= a.ssthresh ==> !a.inFastRecovery &&
 //@      arg1 >= a.CWND() && arg1-a.CWND() <= uint32(totalBytesAcked) && arg1-a.CWND() <= a.CWND()
-//@   at call Association.setCWND@2 assert#congestion-avoidance-grows-by-one-step{C10} a.CWND() > a.ssthresh && arg1 == a.CWND()+max(a.MTU(), a.cwndCAStep)
+//@   at call Association.setCWND assert#congestion-avoidance-grows-by-one-step{C10} a.CWND() > a.ssthresh ==> arg1 == a.CWND()+max(a.MTU(), a.cwndCAStep)
 //@   ensures#cwnd-never-shrinks-on-an-advancing-ack{C10} a.CWND() >= old(a.CWND())
 //@   ensures#ssthresh-untouched{C10} a.ssthresh == old(a.ssthresh)
 
